@@ -355,8 +355,6 @@ def oracle(c, run):
         fails.append({'what': 'packets_received != accepted + packets_dropped', 'signature': 'port-counters'})
     if p.byte_size != 0:
         fails.append({'what': f'byte_size = {p.byte_size} with nothing held', 'signature': 'port-bytes-held'})
-    if c['hasid'] and c['mode'] != 'red' and run.stamps != p.packets_received:
-        fails.append({'what': f'{p.packets_received} packets received, {run.stamps} stamped with their arrival time under the element id', 'signature': 'port-perhop'})
     # "each packet is stamped with its arrival time at this hop under the port's element id" - every packet handed to put(), accepted or
     # refused, fresh or already carrying a stamp under that id (the same object offered again, a second lap, an earlier hop with the
     # same element id): right after the put the entry under the port's id is the instant of THIS arrival.  (A REDPort does not stamp.)
@@ -368,6 +366,8 @@ def oracle(c, run):
         fails.append({'what': f'packet {pid} was handed to the port (element id {p.element_id!r}) at {t!r}; after the put its per-hop table holds '
                               f'{found!r} under that id instead of the arrival time at this hop; {why} ({len(led.badstamp)} such puts)',
                       'signature': 'port-perhop-stamp'})
+    if c['hasid'] and c['mode'] != 'red' and run.stamps != p.packets_received:
+        fails.append({'what': f'{p.packets_received} packets received, {run.stamps} stamped with their arrival time under the element id', 'signature': 'port-perhop'})
     # "With a byte limit a packet is refused iff the bytes held (waiting plus in transmission) plus its size would exceed
     # qlimit" - both directions, at the boundary too (held + size == qlimit is admitted); "never when qlimit is None".
     # The bytes held are the ledger's (accepted minus handed to `out`), not the port's own `byte_size`.
